@@ -1452,3 +1452,22 @@ CASES += [
     dict(name="mf-node-weight-ok", file=CNF, rule="MF", props=["C14"], expect=None,
          old="""            ord.push(ig[idx]);""", new="""            ord.push(*ig.node_weight(idx).unwrap());"""),
 ]
+
+# ------------------------------------------------------------------ WT (label-keyed tables: weight table, from_litvec)
+WMC = "src/repr/wmc.rs"
+CASES += [
+    dict(name="wt-set-weight-swapped", file=WMC, rule="WT", props=["C07"], expect="set_weight:WT1",
+         old="""        self.var_to_val[n] = Some((low, high));""", new="""        self.var_to_val[n] = Some((high, low));"""),
+    dict(name="wt-assignment-weight-swapped", file=WMC, rule="WT", props=["C07"], expect="assignment_weight:WT2",
+         old="""            if lit.polarity() {
+                prod = prod * self.var_to_val[lit.label().value_usize()].unwrap().1""",
+         new="""            if !lit.polarity() {
+                prod = prod * self.var_to_val[lit.label().value_usize()].unwrap().1"""),
+    dict(name="wt-growth-off-by-one", file=WMC, rule="WT", props=["C07"], expect="set_weight:WT3",
+         old="""        while n >= self.var_to_val.len() {""", new="""        while n > self.var_to_val.len() {"""),
+    dict(name="wt-litvec-negated", file="src/repr/model.rs", rule="WT", props=["C15"], expect="from_litvec:WT1",
+         old="""            init_assgn[assgn.label().value_usize()] = Some(assgn.polarity());""",
+         new="""            init_assgn[assgn.label().value_usize()] = Some(!assgn.polarity());"""),
+    dict(name="wt-growth-lt-ok", file=WMC, rule="WT", props=["C07"], expect=None,
+         old="""        while n >= self.var_to_val.len() {""", new="""        while self.var_to_val.len() <= n {"""),
+]
